@@ -339,7 +339,10 @@ def _set_fence_language(t, w):
 def _set_autolink(t, w):
     t.target = 'http://a' + w
     t.children[0].content = 'http://a' + w
-    t.mailto = '@' in w
+    try:
+        t.mailto = '@' in w          # AutoLink.__init__ derives it from the target
+    except AttributeError:
+        pass                         # computed on access in some other arrangement of the class: nothing to keep consistent
 
 
 # name -> (skeleton, path to the token, setter, what the parser can deliver, texts that deliver it)
